@@ -5,7 +5,13 @@
   `cfg` is built from Generated/C19.lean, which the translator rewrites from /repo's source on
   every run; `cfg_good` is the proof obligation that breaks when the source narrows an `except`
   clause of the walkers, moves the `/1000` conversions (back) into the trip-point loop, tests
-  thresholds by truthiness, or changes a constant / file name / enum value.
+  thresholds by truthiness, or changes a constant / enum value; `cfg_names` the one for file names,
+  keys, glob patterns and line tests (generated strings = the model's byte constants); `cfg_cat` for
+  `_common.cat`'s handler; `cfg_boot_fresh` for `return ret` in boot_time().
+  NOT obligations (the model follows the fact, the specification is silent): ValueError caught in
+  sensors_fans, the coretemp platform glob, which `cpuN/online` file is probed, batteryNoDirNone
+  (finding C19-battery-no-power-supply-dir while false).
+  Theorems whose docstring starts with SPEC-ONLY / CHARACTERISATION say so on purpose.
 -/
 import PsutilModel.Proofs.C19
 import PsutilModel.Proofs.C19Battery
@@ -99,7 +105,7 @@ theorem C19_coretemp_as_found (t : TempTree) (h1 : (hwmonSensors t.chips).isEmpt
   have : hwmonSensors t.chips = [] := by simpa using h1
   rw [this]; rfl
 
-/-- which sensors are reported: reading readable AND numeric AND chip name readable -/
+/-- SPEC-ONLY (documents the specification's own definitions; no model / `cfg` term: does not by itself constrain psutil). which sensors are reported: reading readable AND numeric AND chip name readable -/
 theorem C19_reported_iff (c : Chip) (s : Sensor) :
     (hwmonRow c s).isSome ↔ (∃ b v nm, s.input = .content b ∧ pyFloat? b = some v ∧ c.name = .content nm) := by
   unfold hwmonRow fileNum
@@ -160,7 +166,7 @@ theorem C19_zone_thresholds (trips trips' : List Trip) (hp : trips'.Perm trips) 
   · simp only [zoneThr, hg.conv, Bool.false_eq_true, if_false]
     exact zoneThrOutside_crit cfg hg trips _ hp' v hv
 
-/-- the specification itself does not depend on the order either -/
+/-- SPEC-ONLY (documents the specification's own definitions; no model / `cfg` term: does not by itself constrain psutil). the specification itself does not depend on the order either -/
 theorem C19_zone_spec_order_free (kind : Bytes) (trips trips' : List Trip) (hp : trips'.Perm trips)
     (v : Option Rat) (h : zoneThresh kind trips = some v) : zoneThresh kind trips' = some v := by
   unfold zoneThresh at h ⊢
@@ -442,7 +448,7 @@ theorem C19_none_when_absent_battery (p : PowerTree) (hd : p.dirExists = true)
     simp [this]
   simp [hd, this]
 
-/-- **first battery = lexicographic minimum of the battery names** -/
+/-- SPEC-ONLY (documents the specification's own definitions; no model / `cfg` term: does not by itself constrain psutil). **first battery = lexicographic minimum of the battery names** -/
 theorem C19_first_battery (ss : List Supply) (b : Supply) (h : firstBattery ss = some b) :
     b ∈ ss ∧ isBatteryName b.name = true ∧ ∀ b' ∈ ss, isBatteryName b'.name = true → lexLe b.name b'.name = true := by
   unfold firstBattery at h
@@ -487,6 +493,7 @@ theorem C19_secsleft (pl : Option Bool) (now pw tte : Option Int) :
   rw [h]
   cases now <;> cases pw <;> cases tte <;> simp [mvOf]
 
+/-- SPEC-ONLY (documents the specification's own definitions; no model / `cfg` term: does not by itself constrain psutil). -/
 theorem C19_secsleft_rules (n p m : Int) (hp : p ≠ 0) :
     secsleftOf (some true) (some n) (some p) (some m) = -2 ∧
     secsleftOf (some false) (some n) (some p) (some m) = truncRat ((n : Rat) / (p : Rat) * 3600) ∧
@@ -613,6 +620,16 @@ theorem C19_cpu_freq_end_to_end (variant percpu : Bool) (blocks : List CpuBlock)
   have h1 := C19_cpu_freq_refines variant blocks t (by rw [hci]; exact C19_cpuinfo_freqs blocks hb) l h
   simp [cpuFreq, h1, cpuFreqFront_eq]
 
+/-- non-vacuity of `C19_cpu_freq_refines` / `_end_to_end` for the sysfs variant: one policy with the three
+    kHz files (1000000 / 500000 / 2000000), and a policy without any frequency file whose CPU is offline -/
+example : (freqList true []
+    { cpuinfo := .content [], perCpu := [], online := [(1, .content [48, 10])]
+      policies := [ { n := 0, scalingCur := .content [49, 48, 48, 48, 48, 48, 48, 10], cpuinfoCur := .absent
+                      scalingMax := .content [50, 48, 48, 48, 48, 48, 48, 10]
+                      scalingMin := .content [53, 48, 48, 48, 48, 48, 10] },
+                    { n := 1, scalingCur := .absent, cpuinfoCur := .absent, scalingMax := .absent
+                      scalingMin := .absent } ] }).isSome = true := by decide
+
 /-- **percpu=False: the arithmetic mean of each column; no CPU → None; one CPU → that entry.** -/
 theorem C19_cpu_freq_mean (percpu : Bool) (l : List Freq) : cpuFreqFront percpu l = freqFront percpu l :=
   cpuFreqFront_eq percpu l
@@ -717,7 +734,7 @@ theorem C19_cpu_count_cores_none (t : CountTree) (blocks : List CpuBlock) (h1 : 
   rw [C19_cpu_count_cores_cpuinfo t blocks h1 h2 h3, h0]
   rfl
 
-/-- the specification's package sum, spelled out: when every block of package p shows
+/-- SPEC-ONLY (documents the specification's own definitions; no model / `cfg` term: does not by itself constrain psutil). the specification's package sum, spelled out: when every block of package p shows
     `cpu cores : c p` (what the kernel prints), it is Σ over the distinct physical ids of `c p` -/
 theorem C19_cores_packages (blocks : List CpuBlock) (c : Nat → Nat)
     (h : ∀ b ∈ blocks, b.cores = c b.physicalId) :
@@ -849,7 +866,7 @@ theorem C19_zone_trip_set (d : Dir) (hk : KernelNamed d) (order : List Bytes)
     order.Perm ((tripIdxs d).map tripPointName) ∧ (zoneOfDir d order).trips.Perm (kernelZone d).trips :=
   ⟨setOrder_perm d hk order ho, zoneOfDir_trips_perm d hk order ho⟩
 
-/-- the kernel's three file names of trip point `n` are recognised as belonging to `n`, and only they -/
+/-- SPEC-ONLY (documents the specification's own definitions; no model / `cfg` term: does not by itself constrain psutil). the kernel's three file names of trip point `n` are recognised as belonging to `n`, and only they -/
 theorem C19_trip_index (n : Nat) :
     (∀ suf ∈ kernelSuffixes, tripIndex? (tripFile n suf) = some n) ∧
     (∀ name, tripIndex? name = some n → ∃ suf ∈ kernelSuffixes, name = tripFile n suf) :=
@@ -944,6 +961,7 @@ example : KernelNamed exZoneDir ∧ tripIdxs exZoneDir = [12] ∧
 theorem C19_battery_name_rule (n : Bytes) :
     isBattery cfg n = (bBAT.isPrefixOf n || isInfix bBattery (lower n)) := isBattery_eq cfg cfg_good n
 
+/-- SPEC-ONLY (documents the specification's own definitions; no model / `cfg` term: does not by itself constrain psutil). -/
 theorem C19_battery_name_examples :
     isBatteryName [66, 65, 84, 49] = true ∧                                                    -- BAT1
     isBatteryName [104, 105, 100, 112, 112, 95, 98, 97, 116, 116, 101, 114, 121, 95, 48] = true ∧  -- hidpp_battery_0
@@ -965,7 +983,7 @@ theorem C19_battery_selection (ss : List Supply) (n : Bytes) (ns : List Bytes)
     findSupply ss (lexMin n ns) = firstBattery ss :=
   ⟨lexMin_mem n ns, lexMin_le n ns, first_battery cfg cfg_good ss n ns h⟩
 
-/-- a matching name exists ⇒ a first battery exists (never None for want of a minimum), and the
+/-- SPEC-ONLY (documents the specification's own definitions; no model / `cfg` term: does not by itself constrain psutil). a matching name exists ⇒ a first battery exists (never None for want of a minimum), and the
     minimum is unique up to the name -/
 theorem C19_first_battery_exists_unique (ss : List Supply) (h : ∃ s ∈ ss, isBatteryName s.name = true) :
     ∃ b, firstBattery ss = some b ∧
@@ -1015,10 +1033,11 @@ theorem C19_fans_whitespace (pre post : Bytes) (h1 : AllWs pre) (h2 : AllWs post
   cases hi : f.input <;> cases hn : c.name <;> cases hl : f.label <;>
     simp [pad, FileState.read, FileState.readOpt, e1, e2]
 
-/-- **Negative figures** (the power_supply ABI prints a discharging `current_now` as a NEGATIVE
+/-- SPEC-ONLY (documents the specification's own definitions; no model / `cfg` term: does not by itself constrain psutil). **Negative figures** (the power_supply ABI prints a discharging `current_now` as a NEGATIVE
     number on some drivers): the formula is applied as it stands, so with now ≥ 0 and power < 0 the
     seconds left are ≤ 0; with power > 0 they are ≥ 0 and can never be mistaken for the two
-    sentinels. Characterisation of the code as it is (the property states the formula, no `abs`). -/
+    sentinels. CHARACTERISATION, deliberately not a finding: the statement DEFINES seconds left as
+    `now/power*3600` (no `abs`), and that is what the code computes; see notes/C19.md (integrator decision b). -/
 theorem C19_secsleft_sign (n p : Int) (tte : Option Int) (hn : 0 ≤ n) (pl : Option Bool) (hpl : pl ≠ some true) :
     (p < 0 → secsleftOf pl (some n) (some p) tte ≤ 0) ∧ (0 < p → 0 ≤ secsleftOf pl (some n) (some p) tte) := by
   constructor
@@ -1035,7 +1054,7 @@ theorem C19_secsleft_sign (n p : Int) (tte : Option Int) (hn : 0 ≤ n) (pl : Op
     have : 0 ≤ (n : Rat) / (p : Rat) := div_nonneg (by exact_mod_cast hn) (by exact_mod_cast hp.le)
     exact mul_nonneg this (by norm_num)
 
-/-- …and a negative power figure CAN produce exactly the sentinel values: 1 µWh at −3600 µW gives
+/-- SPEC-ONLY (documents the specification's own definitions; no model / `cfg` term: does not by itself constrain psutil). …and a negative power figure CAN produce exactly the sentinel values: 1 µWh at −3600 µW gives
     −1 (= POWER_TIME_UNKNOWN), 2 µWh gives −2 (= POWER_TIME_UNLIMITED) -/
 theorem C19_secsleft_negative_collides :
     secsleftOf (some false) (some 1) (some (-3600)) none = -1 ∧
